@@ -165,6 +165,9 @@ def extra_instances():
     add(Mol([Token(["OC", _imp("$", w=0)]), S("[$]", ["[$]CC[$]"], ["[$][H]"], "[$]", g(30)),
              Token([_imp("$"), "CO", _imp("$", w=0)]), S("[$]", ["[$]CS[$]"], ["[$]F"], "[$]", g(40)),
              Token([_imp("$"), "N"])], name="implicit-connector-dollar"))
+    # an object with fourteen descriptors (two-digit positions in a transition list, descriptor numbers >= 10)
+    add(M("C[>]", S("[>]", ["[<]CC[>]", "[<]CO[>]", "[<]CS[>]", "[<]CN[>]", "[<]C(C)C[>]", "[<]CC(F)[>|1 0 0 0 0 0 0 0 2 0 3 0 0 0|]"], ["[<][H]", "[<]F"], "[<]", g(90)), "[<]O",
+          name="fourteen-descriptors"))
     # ... a molecule that STARTS with an object, then a connector written without descriptors, then another object
     add(Mol([S("[]", ["[<]CC[>]"], ["[>][H]"], "[<]", g(40)), Token([_imp("<"), "CO", _imp(">", w=0)]),
              S("[>]", ["[<]CS[>]"], [], "[<]", g(50)), Token([_imp("<"), "F"])], name="object-first-implicit-connector"))
